@@ -39,7 +39,7 @@ fn first_difference(exp: &OpeningHoursExpression, got: &OpeningHoursExpression) 
 }
 
 fn positive(ch: &mut Choices, case: &mut Case) -> Result<(), String> {
-    let cfg = Cfg { max_rules: 4, ..Cfg::default() };
+    let cfg = Cfg { max_rules: 4, long_pct: 3, ..Cfg::default() };
     let (ast, text) = gen_expr(ch, &cfg);
     case.key = text.clone();
     let kinds = label_expr(&ast, case);
@@ -302,7 +302,7 @@ pub fn property() -> Property {
                 rule: "sentences of 1-4 rules from the grammar-directed generator (all selector kinds, every syntactic variant of appendix B drawn per construct) together with the syntax tree they denote, built without the parser; parse(text) must equal the tree (selectors, ranges, steps, offsets, nth, spans, open end, repeats, kind, operator, comment set); non-trivial = at least two selector kinds or two rules",
                 f: positive,
                 text_f: Some(positive_text),
-                cases_quick: 60_000,
+                cases_quick: 200_000,
                 cases_thorough: 3_000_000,
                 max_choices: 260,
             },
@@ -313,7 +313,7 @@ pub fn property() -> Property {
                 text_f: None,
                 cases_quick: 8_000,
                 cases_thorough: 100_000,
-                max_choices: 12,
+                max_choices: 24,
             },
         ],
         extra: None,
